@@ -205,8 +205,10 @@ def brute_differential(evs, n, k, imag):
                 for t in itertools.permutations(others, 3):
                     num4 += math.cos(n * (ph[i] + ph[t[0]] - ph[t[1]] - ph[t[2]]))
                     den4 += 1
-    if den2 == 0:
+    if not any(f for e in evs for _, f in e):
         return None, 0.0
+    if den2 == 0 or (k == 4 and den4 == 0):
+        return "undefined", 0.0  # POI present, but no tuple of distinct particles starts with one: nothing is defined
     d2 = num2 / den2
     if k == 2:
         if c2 > 0:
@@ -245,6 +247,10 @@ def gen_phis(rng, k, nev_max=4, mmax=9, flowy=None):
 def gen_diff_case(rng, k):
     n = rng.randint(1, 3)
     phis = gen_phis(rng, max(k, 4), nev_max=3, mmax=8)
+    if rng.random() < 0.3:
+        # events too small to hold a single tuple (weight 0 although they may hold a POI: the guarded division)
+        for _ in range(rng.randint(1, 2)):
+            phis.insert(rng.randint(0, len(phis)), [rng.uniform(-math.pi, math.pi) for _ in range(rng.randint(1, 3))])
     sel = rng.choice(SELECTORS)
     poi = rng.choice([None, None, [211], [211, 321]])
     parts = []
@@ -260,6 +266,11 @@ def gen_diff_case(rng, k):
     else:
         bins = sorted(rng.sample([-1.5, -0.5, 0.0, 0.5, 1.5], rng.randint(2, 4)))
     return n, parts, bins, sel, poi
+
+
+def has_tuples(pev, k):
+    """is there at least one k-tuple of distinct particles of one event whose first particle is a POI"""
+    return any(sum(1 for _, f in e if f) > 0 and len(e) >= k for e in pev)
 
 
 def pevents_for_bin(parts, lo, hi, sel, poi):
@@ -280,7 +291,7 @@ def correspond(ctx):
     ctx.rule = ("random event samples (1-4 events, equal and different multiplicities k..9, harmonics 1-4, with and without "
                 "elliptic modulation); ops corr k / flow k imaginary / differential k selector poi (hand model `dflow` and generated functions `gdflow`, the latter also against the private bin function); non-trivial = "
                 ">= 2 events of different multiplicity, or a POI restriction that excludes in-bin particles, or an event "
-                "without POI in the bin; distinct by canonical input")
+                "without POI in the bin, or an event holding a POI but fewer than k particles (weight 0, guarded division); distinct by canonical input")
     N = ctx.n(70, 1500)
     lines, meta = [], []
     # the two decision functions alone: every k x imaginary mode x sign of the cumulant (and of d)
@@ -369,11 +380,15 @@ def correspond(ctx):
                         case=dict(op=op, n=n, k=k, imaginary=imag, phis=data))
         elif op == "gdflow":
             pev, rv, sel, poi, edges = data
+            if not has_tuples(pev, k):
+                ctx.count("gdflow/skipped-no-tuple-in-bin")
+                continue
             some_empty = any(not any(f for _, f in e) for e in pev)
+            small_poi = any(len(e) < k and any(f for _, f in e) for e in pev)
             case = dict(op=op, n=n, k=k, imaginary=imag, selector=sel, poi=poi, bin=edges, pevents=pev)
-            ctx.case((op, n, k, imag, tuple(tuple(e) for e in pev)), some_empty or poi is not None,
+            ctx.case((op, n, k, imag, tuple(tuple(e) for e in pev)), some_empty or small_poi or poi is not None,
                      sample=dict(case, code=rv, generated=out))
-            ctx.count(f"gdflow/k={k}/{'some-event-empty' if some_empty else 'all-events-populated'}")
+            ctx.count(f"gdflow/k={k}/{'weight-0-event-with-poi' if small_poi else 'some-event-empty' if some_empty else 'all-events-populated'}")
             # (1) against the public differential_flow (random rotation of every event: looser tolerance)
             ok = rv is not None and ((kind == "nan" and rv != rv) or (kind == "val" and close(rv, val, rel=1e-6, abs_=1e-8)))
             if not ok:
@@ -401,6 +416,9 @@ def correspond(ctx):
                 ctx.count("dflow/empty-bin")
                 if not ok:
                     ctx.brk("correspondence-broken", f"differential: empty bin but code returned {rv!r}", case=dict(pevents=pev))
+                continue
+            if not has_tuples(pev, k):
+                ctx.count("dflow/skipped-no-tuple-in-bin")  # 0/0 in code and model: nothing is defined
                 continue
             ok = rv is not None and ((kind == "nan" and rv != rv) or (kind == "val" and close(rv, val, rel=1e-6, abs_=1e-8)))
             some_empty = any(not any(f for _, f in e) for e in pev)
@@ -447,7 +465,7 @@ def check_differential(n, k, imag, parts, bins, sel, poi):
             if got[b] is not None:
                 return (f"differential-k{k}-emptybin", f"bin {bins[b:b+2]} has no POI but code returned {got[b]!r}", dict(bin=b))
             continue
-        if abs(c) < 1e-6:
+        if exp == "undefined" or abs(c) < 1e-6:
             continue
         g = got[b]
         if g is None or not ((exp != exp and g != g) or close(g, exp, rel=1e-6, abs_=1e-8)):
